@@ -254,3 +254,78 @@ fn mismatch_growth_case(area: IoArea) {
     kani::cover!(gb == 11 && w == 0xabcd);
     std::mem::forget(io);
 }
+
+// =====================================================================================
+// K4: partial access (%X / %B / %W / %D on bit-string VALUES) - same locality contract as direct addresses
+// =====================================================================================
+use trust_runtime::value::{read_partial_access, write_partial_access, PartialAccess, PartialAccessError};
+
+macro_rules! partial_case {
+    ($tv:ident, $tt:ty, $acc:ident, $pv:ident, $pt:ty, $pbits:expr, $count:expr) => {{
+        let word: $tt = kani::any();
+        let idx: u8 = kani::any();
+        let part: $pt = kani::any();
+        let r = write_partial_access(Value::$tv(word), PartialAccess::$acc(idx), Value::$pv(part));
+        if (idx as u32) < $count {
+            let shift: u32 = (idx as u32) * $pbits;
+            let mask: $tt = ((((1u128 << $pbits) - 1) as $tt) << shift);
+            let pbits: $tt = (part as u128 as $tt) << shift;
+            match &r {
+                Ok(Value::$tv(out)) => {
+                    assert!((*out & !mask) == (word & !mask), "C07: partial write changed bits outside the addressed part");
+                    assert!((*out & mask) == (pbits & mask), "C07: partial write stored the wrong bits");
+                    let back = read_partial_access(&Value::$tv(*out), PartialAccess::$acc(idx));
+                    assert!(matches!(&back, Ok(Value::$pv(b)) if *b == part), "C07: partial read after write differs");
+                }
+                _ => assert!(false, "C07: in-range partial write failed or changed the value's type"),
+            }
+        } else {
+            assert!(matches!(&r, Err(PartialAccessError::IndexOutOfBounds { .. })), "C07: out-of-range partial index must be IndexOutOfBounds");
+        }
+        kani::cover!((idx as u32) + 1 == $count);
+        kani::cover!((idx as u32) >= $count);
+        std::mem::forget(r);
+    }};
+}
+
+macro_rules! partial_bit_case {
+    ($tv:ident, $tt:ty, $count:expr) => {{
+        let word: $tt = kani::any();
+        let idx: u8 = kani::any();
+        let bit: bool = kani::any();
+        let r = write_partial_access(Value::$tv(word), PartialAccess::Bit(idx), Value::Bool(bit));
+        if (idx as u32) < $count {
+            let mask: $tt = (1 as $tt) << (idx as u32);
+            match &r {
+                Ok(Value::$tv(out)) => {
+                    assert!((*out & !mask) == (word & !mask), "C07: partial bit write changed another bit");
+                    assert!(((*out & mask) != 0) == bit, "C07: partial bit write stored the wrong bit");
+                    let back = read_partial_access(&Value::$tv(*out), PartialAccess::Bit(idx));
+                    assert!(matches!(&back, Ok(Value::Bool(b)) if *b == bit), "C07: partial bit read after write differs");
+                }
+                _ => assert!(false, "C07: in-range partial bit write failed or changed the value's type"),
+            }
+        } else {
+            assert!(matches!(&r, Err(PartialAccessError::IndexOutOfBounds { .. })), "C07: out-of-range bit index must be IndexOutOfBounds");
+        }
+        kani::cover!((idx as u32) + 1 == $count);
+        kani::cover!((idx as u32) >= $count);
+        std::mem::forget(r);
+    }};
+}
+
+// @verif prop=C07 kernel=K4 tiers=quick,thorough timeout=1800 unwind=1 mem=12
+// @verif what=partial access on bit-string values: writing bit n / byte n / word n / dword n of a BYTE/WORD/DWORD/LWORD changes exactly the addressed bits (little-endian numbering), read after write returns the written part, an out-of-range index is IndexOutOfBounds (never a shift overflow)
+// @verif fns=value::partial_access::{read_partial_access,write_partial_access}
+// @verif bound=every target value, every index 0..=255, every part value; 10 (target, part) shapes: .%X on BYTE/WORD/DWORD/LWORD, .%B on WORD/DWORD/LWORD, .%W on DWORD/LWORD, .%D on LWORD
+#[kani::proof]
+fn c07_partial_access_locality() {
+    let k: u8 = kani::any();
+    match k % 10 {
+        0 => partial_bit_case!(Byte, u8, 8), 1 => partial_bit_case!(Word, u16, 16),
+        2 => partial_bit_case!(DWord, u32, 32), 3 => partial_bit_case!(LWord, u64, 64),
+        4 => partial_case!(Word, u16, Byte, Byte, u8, 8, 2), 5 => partial_case!(DWord, u32, Byte, Byte, u8, 8, 4),
+        6 => partial_case!(LWord, u64, Byte, Byte, u8, 8, 8), 7 => partial_case!(DWord, u32, Word, Word, u16, 16, 2),
+        8 => partial_case!(LWord, u64, Word, Word, u16, 16, 4), _ => partial_case!(LWord, u64, DWord, DWord, u32, 32, 2),
+    }
+}
